@@ -287,6 +287,9 @@ def run_property(pid, tier, seed, jobs=None):
             "solver_time_s": round(solver_time, 2), "solvers": by_solver,
             "feasibility_unknown_treated_feasible": sum(r["engine"].get("feas_unknown", 0) for r in ok),
             "decisions_by_sign_analysis": sum(r["engine"].get("by_sign", 0) for r in ok),
+            "branches_refuted_on_the_linear_relaxation": sum(r["engine"].get("feas_relaxed", 0) for r in ok),
+            "linear_branches_taken_feasible_on_the_linear_relaxation": sum(r["engine"].get("feas_trusted", 0) for r in ok),
+            "sqrt_of_unit_norm_as_constant": sum(r["engine"].get("sqrt_constants", 0) for r in ok),
             "reachability_twins_sat": sum(1 for r in ok if r["reachable"]),
             "exhaustive": False,
             "repo_head": _repo_head(),
